@@ -83,7 +83,7 @@ func (vc *VC) callFunc(fr *Frame, callee *ssa.Function, args []SV, bind []SV, po
 	if vc.eng.isOpaqueSpec(org) || (vc.hidden[org.Name()] && vc.eng.isSpec(org)) {
 		return vc.applyOpaque(org, args)
 	}
-	if r, ok := vc.gcIntrinsic(fr, org, args); ok {
+	if r, ok := vc.gcIntrinsic(fr, callee, args); ok {
 		return r
 	}
 	if r, ok := vc.stdIntrinsic(fr, org, name, args, pos); ok {
@@ -219,6 +219,11 @@ func (vc *VC) applyContract(fr *Frame, callee *ssa.Function, fi *FuncInfo, args 
 		g := vc.evalClause(en.GoName, fi.C.Pkg, eargs, post, pre)
 		vc.assume(g)
 	}
+	for _, en := range fi.C.Assumes {
+		g := vc.evalClause(en.GoName, fi.C.Pkg, eargs, post, pre)
+		vc.assume(g)
+		vc.noteAssumption("assumed postcondition of " + cname + ": " + en.Expr)
+	}
 	vc.lockEffects(fi, cargs)
 	return results
 }
@@ -268,11 +273,13 @@ func (vc *VC) callback(fr *Frame, c *ssa.CallCommon, args []SV, fnv *SV) SV {
 
 // ---- contract intrinsics (gc*) ---------------------------------------------------
 
-func (vc *VC) gcIntrinsic(fr *Frame, fn *ssa.Function, args []SV) ([]SV, bool) {
+func (vc *VC) gcIntrinsic(fr *Frame, inst *ssa.Function, args []SV) ([]SV, bool) {
+	fn := origin(inst)
 	n := fn.Name()
 	if !strings.HasPrefix(n, "gc") {
 		return nil, false
 	}
+	ptype := func(i int) types.Type { return inst.Signature.Params().At(i).Type() }
 	switch n {
 	case "gcOld":
 		return nil, false // handled at the instruction level (needs the SSA operand)
@@ -285,9 +292,18 @@ func (vc *VC) gcIntrinsic(fr *Frame, fn *ssa.Function, args []SV) ([]SV, bool) {
 	case "gcAllocated":
 		// every reference inside the value was allocated no later than the state of evaluation
 		var cs []string
-		for j, li := range vc.eng.layoutOf(fn.Params[0].Type()).L {
+		for j, li := range vc.eng.layoutOf(ptype(0)).L {
 			if li.Kind == kRef && j < len(args[0].L) {
 				cs = append(cs, "(<= "+args[0].L[j]+" "+vc.st.Alloc+")")
+			}
+		}
+		return []SV{scalar(and(cs...))}, true
+	case "gcFresh":
+		// every reference inside the value was allocated during the current call
+		var cs []string
+		for j, li := range vc.eng.layoutOf(ptype(0)).L {
+			if li.Kind == kRef && j < len(args[0].L) && !strings.HasSuffix(li.Path, ".len") {
+				cs = append(cs, "(> "+args[0].L[j]+" "+vc.entryAlloc+")")
 			}
 		}
 		return []SV{scalar(and(cs...))}, true
@@ -322,8 +338,16 @@ func (vc *VC) gcIntrinsic(fr *Frame, fn *ssa.Function, args []SV) ([]SV, bool) {
 			q = "exists"
 		}
 		return []SV{scalar(vc.mkQuant(q, binders, bv.L, body[0].L[0]))}, true
-	case "gcSum", "gcCard", "gcHas":
-		return nil, false
+	case "gcSum":
+		mi := vc.eng.mapInfoOf(ptype(0))
+		ref := args[0].L[0]
+		return []SV{scalar(vc.msum(mi, vc.mapDom(mi, ref), vc.mapVal(mi, ref, 0)))}, true
+	case "gcCard":
+		mi := vc.eng.mapInfoOf(ptype(0))
+		return []SV{scalar(vc.mcard(mi, vc.mapDom(mi, args[0].L[0])))}, true
+	case "gcHas":
+		mi := vc.eng.mapInfoOf(ptype(0))
+		return []SV{scalar(sel(vc.mapDom(mi, args[0].L[0]), args[1].L[0]))}, true
 	}
 	return nil, false
 }
@@ -449,10 +473,11 @@ func (vc *VC) appendOp(fr *Frame, c *ssa.CallCommon, args []SV) SV {
 		T := vc.def(asort, tarr[j])
 		R := vc.fresh(asort, "app")
 		i := "i!q"
-		src := fmt.Sprintf("(select %s (bvadd %s (bvsub %s %s)))", T, toff, i, slen)
-		body := fmt.Sprintf("(= (select %s (bvadd %s %s)) (ite (and (bvsle (_ bv0 64) %s) (bvslt %s %s)) (select %s (bvadd %s %s)) (ite (and (bvsle %s %s) (bvslt %s %s)) %s (ite %s (select %s (bvadd %s %s)) %s))))",
+		vc.ix("x", "y") // make sure ix is declared
+		src := fmt.Sprintf("(select %s (ix %s (bvsub %s %s)))", T, toff, i, slen)
+		body := fmt.Sprintf("(= (select %s (ix %s %s)) (ite (and (bvsle (_ bv0 64) %s) (bvslt %s %s)) (select %s (ix %s %s)) (ite (and (bvsle %s %s) (bvslt %s %s)) %s (ite %s (select %s (ix %s %s)) %s))))",
 			R, roff, i, i, i, slen, S, soff, i, slen, i, i, newlen, src, fits, S, soff, i, zeroOfSort(els[j]))
-		vc.assume("(forall ((" + i + " (_ BitVec 64))) (! " + body + " :pattern ((select " + R + " (bvadd " + roff + " " + i + ")))))")
+		vc.assume("(forall ((" + i + " (_ BitVec 64))) (! " + body + " :pattern ((select " + R + " (ix " + roff + " " + i + ")))))")
 		// in-place case: everything outside the window keeps its value
 		vc.assume(implies(fits, fmt.Sprintf("(forall ((%s (_ BitVec 64))) (! (=> (not (and (bvsle (bvadd %s %s) %s) (bvslt %s (bvadd %s %s)))) (= (select %s %s) (select %s %s))) :pattern ((select %s %s))))",
 			i, soff, slen, i, i, soff, newlen, R, i, S, i, R, i)))
